@@ -14,7 +14,7 @@ use serde_json::json;
 pub fn prop() -> Prop {
   Prop {
     id: "C03",
-    rule: "case = (source: cold basic source | hot Subject | hot create-handle; input script of 0..6 items over {0..3} with terminal none/complete/error (+ post-terminal events); chain of 1..5 operators from the C03 catalogue with parameters in 0..len+1; local or thread-safe build). \
+    rule: "case = (source: cold basic source | hot Subject | hot create-handle; input script of 0..6 items over {0..3} - one case in eight 20..100 items over {0..3} or {0..999} - with terminal none/complete/error (+ post-terminal events); chain of 1..5 operators from the C03 catalogue with parameters in 0..len+1 (one in 16: far larger - 32, 33, 255, 65536, 65537, usize::MAX/2, usize::MAX); local or thread-safe build). \
            Oracle: delivered (step, notification) list == reference interpreter. Non-trivial: the chain has a stateful operator and the input has >= 2 items, or a boundary count parameter (0, len, len+1), or the input ends in an error. Distinct by hash(AST, script, build). \
            Part `single-op` enumerates one operator x all inputs of length <= 4 over {0,1,2} x every terminal exhaustively (thorough tier).",
     assumptions: &[
@@ -104,7 +104,43 @@ fn gen_case(c: &mut dyn Choices, single: bool) -> Case {
   for _ in 0..depth {
     node = Node::un(gen_un_c03(c, len_hint, alphabet), node);
   }
-  Case { node, script, kind, threads }
+  let mut case = Case { node, script, kind, threads };
+  // (appended picks, so that recorded tapes keep their meaning) one case in eight is "long": the input is replaced
+  // by 20..100 items over {0..3} or {0..999} - thresholds, batching and capacity logic only show at scale
+  if !single && c.pick(8) == 7 {
+    let n = 20 + c.pick(81);
+    let alpha = if c.flag() { alphabet } else { 1000 };
+    let items = gen_long_items(c, n, alpha);
+    let term = match c.pick(3) {
+      0 => None,
+      1 => Some(Ev::C),
+      _ => Some(Ev::Er(gen_e(c))),
+    };
+    if case.kind == 0 {
+      let src = if term == Some(Ev::C) && c.flag() {
+        Src::FromIter(items)
+      } else {
+        let mut evs: Vec<(u8, Ev)> = items.into_iter().map(|v| (0u8, Ev::N(v))).collect();
+        if let Some(t) = term {
+          evs.push((1, t));
+        }
+        Src::Create(evs)
+      };
+      case.node = replace_src(&case.node, src);
+    } else {
+      let mut sc: Vec<Ev> = items.into_iter().map(Ev::N).collect();
+      sc.extend(term);
+      case.script = sc;
+    }
+  }
+  case
+}
+
+fn replace_src(n: &Node, src: Src) -> Node {
+  match n {
+    Node::Un(op, tf, inner) => Node::Un(op.clone(), *tf, Box::new(replace_src(inner, src))),
+    _ => Node::Src(src),
+  }
 }
 
 fn stateful(op: &Un) -> bool {
@@ -183,6 +219,9 @@ fn analyse(case: &Case) -> (bool, Vec<&'static str>) {
   }
   if err_end {
     labels.push("input:error");
+  }
+  if n_items >= 20 {
+    labels.push("input:long");
   }
   if boundary {
     labels.push("param:boundary");
